@@ -1,6 +1,8 @@
 (* C05 oracle.  Tokens (space separated), sections separated by "/":
      init:  F <hexpath> <hexdata> <mode>   U <umask>
      prog:  S <hexpath> <hexdata>          M <hexpath> <mode>
+            T <hexpath> <hexdata>  (save only if the latest save succeeded)
+            E <hexpath> <hexdata>  (save only if the latest save failed)
      ops:   o <fd> <hexpath> <perm> | w <fd> <hexdata> | c <fd> | r <hexa> <hexb>
             | m <hexpath> <mode> | u <hexpath>
    Requests:
@@ -8,6 +10,7 @@
      crash / INIT / PROG / OPS       -> "ok <n>"  |  "bad <i> <hexpath> / <ops of that crash point>"
      state / INIT / OPS              -> "F ..." listing of the file system after OPS
      fault / INIT / PROG / k short e -> "<trace with results> / <stderr entries> / <listing>"  (k = -1: no fault)
+     snap / INIT / PROG / CUR        -> "ok" | "bad <hexpath>"   (CUR in init syntax: a snapshot of a real tree)
      tmpfree / INIT / PROG           -> "1" | "0" *)
 let rec split_sections (toks : string list) : string list list =
   let rec go cur acc = function
@@ -29,6 +32,8 @@ let parse_prog (toks : string list) : action list =
   let rec go acc = function
     | "S" :: p :: d :: rest -> go (ASave (bytes_of_hex p, bytes_of_hex d) :: acc) rest
     | "M" :: p :: m :: rest -> go (AChmod (bytes_of_hex p, n_of_int (int_of_string m)) :: acc) rest
+    | "T" :: p :: d :: rest -> go (AIfSaved (true, bytes_of_hex p, bytes_of_hex d) :: acc) rest
+    | "E" :: p :: d :: rest -> go (AIfSaved (false, bytes_of_hex p, bytes_of_hex d) :: acc) rest
     | [] -> List.rev acc
     | _ -> failwith "bad prog" in
   go [] toks
@@ -87,6 +92,11 @@ let handle (args : string list) : string =
         show_op o ^ " =" ^ (match r with None -> "ok" | Some e -> show_errno e)) w.w_trace) in
     let er = String.concat " " (List.map (fun (k, p) -> show_kind k ^ " " ^ hex_of_bytes p) w.w_stderr) in
     tr ^ " / " ^ er ^ " / " ^ show_fs w.w_st.st_fs
+  | [["snap"]; init; prog; cur] ->
+    let i = (parse_init init).st_fs in
+    (match first_bad i i (parse_prog prog) (parse_init cur).st_fs with
+     | None -> "ok"
+     | Some p -> "bad " ^ hex_of_bytes p)
   | [["tmpfree"]; init; prog] -> if tmp_freeb (parse_init init).st_fs (parse_prog prog) then "1" else "0"
   | _ -> "ERR:bad request"
 let () = serve handle
